@@ -4,13 +4,14 @@ from .. import xengine
 
 
 def _proc(args):
-    tool, argv, seed, hs = args
+    tool, argv, seed, hs = args[:4]
+    cwd = args[4] if len(args) > 4 else '/tmp'
     import subprocess, os
     from ..core import REPO
     env = dict(os.environ, PYTHONHASHSEED=str(hs), PYTHONPATH=REPO, PYTHONWARNINGS='ignore')
     code = ("import sys,importlib;importlib.import_module('cnfgen.clitools.%s');"
-            "sys.argv=%r;sys.modules['cnfgen.clitools.%s'].main()" % (tool, [tool, '--seed', str(seed)] + [str(a) for a in argv], tool))
-    r = subprocess.run(['/venv/bin/python', '-W', 'ignore', '-c', code], capture_output=True, text=True, env=env, cwd='/tmp', timeout=120)
+            "sys.argv=%r;sys.modules['cnfgen.clitools.%s'].main()" % (tool, [tool] + ([] if tool == 'kthlist2pebbling' else ['--seed', str(seed)]) + [str(a) for a in argv], tool))
+    r = subprocess.run(['/venv/bin/python', '-W', 'ignore', '-c', code], capture_output=True, text=True, env=env, cwd=cwd, timeout=120)
     return r.returncode, r.stdout
 
 
@@ -30,7 +31,41 @@ def process_sweep(part, commands):
                       'output of `%s --seed 1 %s` differs between processes with different PYTHONHASHSEED' % (t, ' '.join(str(a) for a in argv)))
 
 
+def cwd_sweep(part, commands):
+    """Auxiliary, NOT solver-based: command lines naming graph / formula files by RELATIVE path are run in fresh processes
+    from two different directories holding identical copies of the files; the outputs must be identical."""
+    import multiprocessing, os, shutil, tempfile
+    from ..xh import c07 as H
+    dirs = [tempfile.mkdtemp(prefix='verif_c07_a_'), tempfile.mkdtemp(prefix='verif_c07_b_', dir=tempfile.mkdtemp(prefix='verif_c07_deeper_'))]
+    try:
+        for d in dirs:
+            for f in os.listdir(H.DATA):
+                shutil.copy(os.path.join(H.DATA, f), os.path.join(d, f))
+        rel = [(t, [os.path.basename(a) if isinstance(a, str) and a.startswith(H.DATA) else a for a in argv]) for (t, argv) in commands]
+        jobs = [(t, argv, 1, 0, d) for (t, argv) in rel for d in dirs]
+        with multiprocessing.get_context('fork').Pool(16) as pool:
+            res = pool.map(_proc, jobs)
+        for i, (t, argv) in enumerate(rel):
+            part.counts['cwd_sweep_commands'] += 1
+            if res[2 * i] != res[2 * i + 1] or res[2 * i][0] != 0:
+                part.case('c07.proc', 'cwd_dependence', {'tool': t, 'argv': [str(a) for a in argv]},
+                          'output of `%s --seed 1 %s` differs between two working directories with identical files (or the run failed)' % (t, ' '.join(str(a) for a in argv)))
+    finally:
+        for d in dirs:
+            shutil.rmtree(d, ignore_errors=True)
+        shutil.rmtree(os.path.dirname(dirs[1]), ignore_errors=True)
+
+
 def replay(case):
+    if case['harness'] == 'c07.proc' and case['kind'] == 'cwd_dependence':
+        from ..core import Part
+        p = case['input']
+        from ..xh import c07 as H
+        import os
+        argv = [os.path.join(H.DATA, a) if isinstance(a, str) and os.path.exists(os.path.join(H.DATA, a)) else a for a in p['argv']]
+        tmp = Part()
+        cwd_sweep(tmp, [(p['tool'], argv)])
+        return bool(tmp.cases), 'outputs from two directories differ: %s' % bool(tmp.cases)
     if case['harness'] == 'c07.proc':
         p = case['input']
         outs = {_proc((p['tool'], p['argv'], 1, hs)) for hs in (0, 1, 4242, 7, 99)}
@@ -62,6 +97,7 @@ def run(tier):
     conds = [xengine.Cond('c07', 'h_e_cmd_%d' % i, T, symbolic=True, note='%s %s' % (t, ' '.join(str(a) for a in argv)))
              for i, (t, argv) in enumerate(H.COMMANDS)]
     conds.append(xengine.Cond('c07', 'h_e_lib', T, symbolic=True))
+    conds.append(xengine.Cond('c07', 'h_e_lib_headers', T, symbolic=True, note='24 library calls with non-default options, twice on equal but distinct objects'))
     conds.append(xengine.Cond('c07', 'h_e_lib_stream', T, symbolic=False, note='seeded draws from five deterministic non-MT streams; dense requests'))
     part = xengine.run_conditions('c07.x', conds)
     import sys
@@ -71,5 +107,6 @@ def run(tier):
     from ..core import Part
     p2 = Part()
     process_sweep(p2, H.COMMANDS + H.NAMED_COMMANDS)
+    cwd_sweep(p2, H.NAMED_COMMANDS + H.FILE_COMMANDS)
     run.add(p2, {'harness': 'c07.proc', 'engine': 'plain process sweep over PYTHONHASHSEED (auxiliary, not solver-decided)'})
     return run.finish()
